@@ -56,11 +56,11 @@ ANCHORS = [
     "gemseo.mda.mda_chain:MDAChain._compute_jacobian",
 ]
 MIN_COUNTERS = {
-    "quick": {"linearizations_judged": 450, "successive_requests_judged": 240, "blocks_checked": 2600,
-              "zero_blocks_checked": 900, "executed_values_checked": 2200, "unrequested_blocks_checked": 90,
-              "cases_chain": 130, "cases_par": 40, "cases_add": 30, "cases_mdachain": 50, "cases_nested": 130,
-              "cases_returning_sparse_blocks": 140, "cases_returning_op_blocks": 85, "cases_with_overwritten": 14,
-              "symbolic_cases_judged": 16, "symbolic_blocks_checked": 100, "directed_cases": 18},
+    "quick": {"linearizations_judged": 650, "successive_requests_judged": 360, "blocks_checked": 4000,
+              "zero_blocks_checked": 1400, "executed_values_checked": 3200, "unrequested_blocks_checked": 130,
+              "cases_chain": 190, "cases_par": 58, "cases_add": 50, "cases_mdachain": 75, "cases_nested": 200,
+              "cases_returning_sparse_blocks": 200, "cases_returning_op_blocks": 125, "cases_with_overwritten": 16,
+              "symbolic_cases_judged": 24, "symbolic_blocks_checked": 130, "directed_cases": 18},
     "thorough": {"linearizations_judged": 11000, "successive_requests_judged": 6000, "blocks_checked": 60000,
                  "zero_blocks_checked": 22000, "executed_values_checked": 50000, "unrequested_blocks_checked": 2200,
                  "cases_chain": 3200, "cases_par": 1000, "cases_add": 800, "cases_mdachain": 1200, "cases_nested": 3300,
@@ -106,8 +106,8 @@ def _quiet():
 
 def shards(tier, seed):
     n = 16
-    per = {"quick": 30, "thorough": 800}[tier]
-    sym = {"quick": 2, "thorough": 30}[tier]
+    per = {"quick": 45, "thorough": 800}[tier]
+    sym = {"quick": 3, "thorough": 30}[tier]
     return [{"seed": subseed(seed, PID, i), "n_cases": per, "n_symbolic": sym,
              "budget_s": {"quick": 350, "thorough": 2400}[tier]} for i in range(n)]
 
